@@ -631,6 +631,10 @@ SPANS_CORPUS = [
     [("a", 0, 1), ("a", 2, 1), ("a", 4, 1), ("a", 1, 1), ("a", 3, 1), ("c", 0, 5), ("c", 0, 6), ("r", 2, 1), ("c", 0, 5)],
 ]
 DSPANS_CORPUS = [
+    # seeded C37-d: a remove that wholly covers the chunk at list index 0 and at least one further chunk
+    [("a", 0, "aaaa"), ("a", 5, "bbbb"), ("a", 10, "cccc"), ("r", 0, 8), ("g", 0, 1), ("l",), ("s",),
+     ("a", 0, "aaaa"), ("a", 5, "bbbb"), ("r", 0, 12), ("l",), ("a", 2, "01"), ("a", 4, "02"), ("a", 6, "03"), ("p", 2, 1), ("r", 4, 3), ("l",)],
+    [("a", 3, "aa"), ("a", 6, "bb"), ("a", 9, "cc"), ("a", 12, "dddd"), ("r", 2, 11), ("l",), ("g", 3, 1), ("g", 13, 1), ("s",)],
     # seeded C37-c: an add that exactly fills a hole (adjacent on both sides) must merge with both neighbours
     [("a", 100, "01020304"), ("a", 108, "090a0b0c"), ("a", 104, "05060708"), ("g", 100, 12), ("g", 106, 4), ("p", 102, 8), ("l",), ("s",)],
     [("a", 0, "aa"), ("a", 4, "bb"), ("a", 8, "cc"), ("a", 1, "010203040506"), ("a", 7, "07"), ("g", 0, 9), ("p", 6, 3), ("g", 0, 6)],
